@@ -139,9 +139,11 @@ def run_storm(arg):
             for n in range(300):
                 f.write(struct.pack("hi32s4s32s256shhiii4i20s", 7, 1000 + n, b"pts/%d" % n, b"%d" % n, b"user%d" % n, b"host%d.example.org" % n, 0, 0, 0, 0, 0, 10, 1, 2, 3, b""))
         cmd += ["--utmp-from", up]
+    pr = subprocess.Popen(cmd, env=env, stdout=subprocess.PIPE, stderr=subprocess.PIPE, text=True, cwd=work)
     try:
-        r = subprocess.run(cmd, env=env, capture_output=True, text=True, cwd=work, timeout=300)
-    except subprocess.TimeoutExpired:
+        so, se = pr.communicate(timeout=300)
+        r = subprocess.CompletedProcess(cmd, pr.returncode, so, se)
+    except subprocess.TimeoutExpired:        # (still running: look at its threads before anything is killed)
         # the storm process itself did not finish: are its threads all parked in a lock wait (a parent thread that never gets
         # the registry lock back after a fork), or is it just slow?
         states = []
@@ -158,7 +160,12 @@ def run_storm(arg):
                         states.append(f.read().split()[0])
             except OSError:
                 continue
+        pr.kill()
         kill_stragglers(work)
+        try:
+            pr.communicate(timeout=10)
+        except subprocess.TimeoutExpired:
+            pass
         if states and all(x in ("202", "61", "247") for x in states):
             return dict(parent_stuck=1, fname=fname, out=out, fmt=fmt, threads=threads, task_syscalls=states[:20])
         return dict(harness_timeout=1, fname=fname, out=out, task_syscalls=states[:20])
